@@ -46,10 +46,11 @@ def res_bool(f):
 class Bench:
     """real versions of one scheme addressed by rank"""
 
-    def __init__(self, name, rng, size=16):
+    def __init__(self, name, rng, size=16, need_hash=True):
         self.name = name
         self.cls = S.vclass(name)
-        self.pool = pools.build_pool(name, rng, size=size)
+        # need_hash=False: members whose hash disagrees with == stay in (for properties that do not speak about hashing)
+        self.pool = pools.build_pool(name, rng, size=size, need_hash=need_hash)
         self.rng = rng
         self.rclass = S.rclass(name) or _generic_range_for(self.cls)
 
